@@ -1,5 +1,6 @@
 import PetgraphModel.Proofs.C06W2Base
 import PetgraphModel.Model.C06Views
+import PetgraphModel.Proofs.C06ExtractedNorm
 import PetgraphModel.Theorems.C02
 /-
 C06 wave 3 — `StableGraph`: the table computed from the C02 storage model (`stableTable`, Model/C06Views.lean)
@@ -631,7 +632,7 @@ theorem mem_sgAdjMatrix (s : State) (p : Nat) :
     p ∈ adjMatrix s ↔ ∃ (i : Nat) (x : Edge) (w : Int), s.edges[i]? = some x ∧ x.w = some w ∧
       (p = x.a * nodeBound s + x.b ∨ (s.directed = false ∧ p = x.a + nodeBound s * x.b)) := by
   unfold adjMatrix edgeReferences
-  simp only [List.mem_flatMap, mem_edgeRefsFrom, AdjWidth.bitBuild_StableGraph, AdjWidth.bitBuildSym_StableGraph]
+  simp only [List.mem_flatMap, mem_edgeRefsFrom, AdjWidth.bitBuild_StableGraph_eq, AdjWidth.bitBuildSym_StableGraph_eq]
   constructor
   · rintro ⟨_, ⟨i, x, w, hx, hw, rfl⟩, hp⟩
     refine ⟨i, x, w, hx, hw, ?_⟩
@@ -673,7 +674,7 @@ theorem st_adj (s : State) (hinv : Inv s) : adjOk (nodeIndices s) (stableTable s
     rw [Nat.mul_add] at k
     omega
   simp only [List.mem_filter, hb, true_and, expAdj, List.any_eq_true, isAdjacent, List.contains_iff_mem,
-    mem_sgAdjMatrix, AdjWidth.bitRead_StableGraph, Bool.and_eq_true, decide_eq_true_eq, hrange]
+    mem_sgAdjMatrix, AdjWidth.bitRead_StableGraph_eq, Bool.and_eq_true, decide_eq_true_eq, hrange]
   change _ ↔ ∃ e, e ∈ sERefs s ∧ _
   constructor
   · rintro ⟨i, x, w, hx, hw, hp⟩
